@@ -39,7 +39,7 @@ Definition check (c : case) : codes :=
       (match obs with None => if acc then [11%N] else [] | Some _ => [] end)
   | KConfig acc lc rc sig =>
       (if lc then [16%N] else []) ++
-      (if acc && rc then [if N.eqb sig 1 then 17%N else 12%N] else [])
+      (if acc && rc then [if N.eqb sig 1 then 17%N else if N.eqb sig 2 then 18%N else 12%N] else [])
   | KRequests cr hung caught =>
       (if cr then [13%N] else []) ++ (if hung then [14%N] else []) ++ (if N.eqb caught 0 then [] else [15%N])
   end.
